@@ -16,6 +16,84 @@ PID = "C18"
 N = 3
 
 
+DICE = ("static class Dice {\n  public static function roll() -> int {\n    qubit q;\n    h(q);\n    bit b = measure q;\n    if (b == 1b) {\n      return 1;\n    }\n"
+        "    return 0;\n  }\n}\n")
+# programs whose classical behaviour depends on ONE coin flip per run (exactly one measurement per run): anything pinned by an
+# earlier shot - in the syntax tree, in a process-wide cache, in a static - shows as soon as the shots' coins differ
+RUN_DEPENDENT = {
+    "static from a measurement": DICE + "static class Lab {\n  public static int face = Dice.roll();\n}\nfunction main() -> void {\n  echo(\"face=\" + Lab.face);\n}\n",
+    "final static derived from a static": DICE + "static class Lab {\n  public static int face = Dice.roll();\n}\nstatic class Board {\n"
+        "  public static final int width = Lab.face + 1;\n  public static final string label = \"w\" + width;\n  public static final int twice = width * 2;\n}\n"
+        "function main() -> void {\n  echo(\"board \" + Board.width + \" \" + Board.label + \" \" + Board.twice + \" face \" + Lab.face);\n}\n",
+    "field array sized by a static": DICE + "static class Layout {\n  public static int extra = Dice.roll();\n}\nclass Register {\n  public int[Layout.extra + 1] cells;\n"
+        "  public constructor() -> Register = default;\n  public function show() -> void {\n    echo(cells);\n  }\n}\n"
+        "function main() -> void {\n  echo(\"extra=\" + Layout.extra);\n  Register r = new Register();\n  r.show();\n}\n",
+    "local array sized by a final": DICE + "function main() -> void {\n  int c = Dice.roll();\n  echo(c);\n  final int n = 2;\n  int[n] a;\n  a[c] = 7;\n  echo(a);\n}\n",
+    "specialisation order": DICE + "class Box<T> {\n  public static int made = 0;\n  public T v;\n  public constructor(T x) -> Box<T> {\n    this.v = x;\n    made = made + 1;\n  }\n"
+        "  public function count() -> int {\n    return made;\n  }\n}\nfunction main() -> void {\n  int c = Dice.roll();\n  if (c == 1) {\n    Box<int> a = new Box<int>(1);\n"
+        "    Box<int> a2 = new Box<>(2);\n    echo(a2.count());\n  } else {\n    Box<string> b = new Box<string>(\"s\");\n    echo(b.count());\n  }\n"
+        "  Box<string> z = new Box<string>(\"t\");\n  echo(z.count());\n  Box<int> y = new Box<int>(3);\n  echo(y.count());\n}\n",
+    "static counter and objects": DICE + "class Node {\n  public static int live = 0;\n  public int id;\n  public Node next;\n  public constructor(int i) -> Node {\n    this.id = i;\n"
+        "    live = live + 1;\n  }\n  public destructor() -> void {\n    live = live - 1;\n    echo(\"~Node \" + id + \" live \" + live);\n  }\n}\n"
+        "function main() -> void {\n  int c = Dice.roll();\n  Node a = new Node(c);\n  for (int i = 0; i < c + 1; i = i + 1) {\n    Node t = new Node(10 + i);\n"
+        "    t.next = a;\n  }\n  echo(\"live \" + Node.live);\n}\n",
+    "default constructor binding and overloads": DICE + "class P {\n  public int x;\n  public long y;\n  public constructor(int x, long y) -> P = default;\n"
+        "  public function f(int a) -> string {\n    return \"f(int)\";\n  }\n  public function f(long a) -> string {\n    return \"f(long)\";\n  }\n}\n"
+        "function main() -> void {\n  int c = Dice.roll();\n  P p = new P(c, 5L);\n  echo(p.x + p.y);\n  if (c == 1) {\n    echo(p.f(1));\n  } else {\n    echo(p.f(2L));\n  }\n}\n",
+    "tracked local": DICE + "function main() -> void {\n  int c = Dice.roll();\n  @tracked qubit t;\n  if (c == 1) {\n    x(t);\n  }\n  measure t;\n  echo(c);\n}\n",
+    "string built from a static chain": DICE + "static class A1 {\n  public static int a = Dice.roll();\n  public static string s = \"a\" + a;\n}\nstatic class B1 {\n"
+        "  public static final string t = A1.s + \"/\" + A1.a;\n}\nfunction main() -> void {\n  echo(B1.t);\n  echo(A1.s);\n}\n",
+}
+
+
+def run_dependent(out, tier):
+    """N-shot run with DIFFERENT coins per shot vs. N fresh single runs with the same coins"""
+    n = bad = 0
+    patterns = [[0.25, 0.75, 0.75, 0.25], [0.75, 0.25, 0.75, 0.75], [0.25, 0.25, 0.75, 0.25]] if tier == "quick" else \
+        [[0.25 if (m >> k) & 1 == 0 else 0.75 for k in range(5)] for m in range(1, 31)]
+    jobs = []
+    meta = {}
+    for name, src in RUN_DEPENDENT.items():
+        for pi, pat in enumerate(patterns):
+            jid = len(jobs)
+            meta[jid] = (name, pi, "multi", None)
+            per = src.count("measure ")
+            jobs.append({"id": jid, "src": src, "draws": [d for d in pat for _ in range(per)], "shots": len(pat), "gc": "none", "reanalyse": True})
+            for k, d in enumerate(pat):
+                jid = len(jobs)
+                meta[jid] = (name, pi, "fresh", k)
+                jobs.append({"id": jid, "src": src, "draws": [d] * per, "gc": "none"})
+    res = runner.run_jobs(jobs)
+    fresh = {(meta[j][0], meta[j][1], meta[j][3]): res[j] for j in meta if meta[j][2] == "fresh"}
+    for j, (name, pi, kind, _) in meta.items():
+        if kind != "multi":
+            continue
+        r = res[j]
+        pat = patterns[pi]
+        if r["status"] != "ok" or len(r.get("shots", [])) < len(pat):
+            bad += 1
+            out.violation("run-dependent program '%s': multi-shot execution ended with %s %s" % (name, r["status"], r.get("what", "")),
+                          {"what": "multi-shot run failed", "program": jobs[j]["src"], "draws": pat, "result": r}, "rd%d" % j)
+            continue
+        outs = set()
+        for k in range(len(pat)):
+            n += 1
+            f = fresh[(name, pi, k)]
+            if f["status"] != "ok":
+                raise vlib.Infra("fresh run of '%s' failed: %s" % (name, str(f)[:300]))
+            a, b = r["shots"][k], f["shots"][0]
+            outs.add(tuple(b["echo"]))
+            if (a["status"], a["echo"], a.get("tracked")) != (b["status"], b["echo"], b.get("tracked")):
+                bad += 1
+                msg = ("run-dependent program '%s': shot %d of %d prints %s %s, a fresh run with the same coin prints %s %s"
+                       % (name, k + 1, len(pat), a["echo"], a.get("tracked"), b["echo"], b.get("tracked")))
+                out.violation(msg, {"what": msg, "program": jobs[j]["src"], "draws": pat, "shot": k + 1, "multi": a, "fresh": b}, "rd%d" % j)
+                break
+        if len(outs) < 2:
+            raise vlib.Infra("run-dependent program '%s' prints the same thing for both coins" % name)
+    return n, bad
+
+
 def run(tier, seed):
     t0 = time.time()
     out = vlib.Outcome(PID)
@@ -120,9 +198,10 @@ def run(tier, seed):
                 cur = l.strip()
         if got != exp:
             bad.append(("q%d" % i, "CLI aggregate table %s, expected %s" % (dict(got), dict(exp)), jobs[i]["src"], r))
+    nrd, badrd = run_dependent(out, tier)
     for tag, msg, src, r in bad[:8]:
         out.violation(msg, {"what": msg, "program": src, "result": r}, "p%s" % tag)
-    cov = {"evaluations": shots_checked + cli_checked, "distinct_nontrivial": len({s for s in srcs.values()}) + len(behs),
+    cov = {"evaluations": shots_checked + cli_checked + nrd, "run_dependent_shots_compared": nrd, "distinct_nontrivial": len({s for s in srcs.values()}) + len(behs),
            "programs": len(base) + len(behs), "executions_compared": shots_checked, "cli_multi_shot_runs": cli_checked,
            "samples": [{"program": srcs[3][-600:], "shots": N}],
            "rule": "programs that would reveal a leak between shots - static counters and static object fields, generic specialisations created "
@@ -130,8 +209,11 @@ def run(tier, seed):
                    "measured-but-not-reset qubits at exit, tracked counts - are parsed and analysed ONCE and executed N=3 times with a fresh "
                    "evaluator per shot (exactly what the CLI's shot loop does), then analysed again and executed once more; every execution must "
                    "equal the reference of a single fresh run (BlochSem for output, QRuntime for quantum observations with the same draws). "
-                   "A sample is also run through the real CLI with --shots=3 --echo=all: echo lines must be 3 repetitions, tracked counts 3x."}
+                   "A sample is also run through the real CLI with --shots=3 --echo=all: echo lines must be 3 repetitions, tracked counts 3x. "
+                   "Run-dependent programs (one coin flip per run feeding static initialisers, final statics derived from statics, field array sizes, "
+                   "specialisation creation order, static counters with destructors, default-constructor binding, tracked fields) are run as one "
+                   "multi-shot execution whose shots get DIFFERENT injected coins and shot by shot compared with fresh single runs given the same coin."}
     vlib.write_evidence(PID, tier, seed, "exploration", cov,
                         ["the abstract syntax tree is compared through behaviour (re-analysis + re-execution), not structurally"],
-                        time.time() - t0, len(bad))
+                        time.time() - t0, len(bad) + badrd)
     return out.finish()
